@@ -8,7 +8,7 @@ PID="$1"; shift
 CHECKS=("$@"); if [[ ${#CHECKS[@]} == 0 ]]; then CHECKS=(C01 C02 C03 C04 C05 C06 C07 C08 C09 C10 C11 C12 C13 C14 C15 C16 C17 C18 C19 C20); fi
 W=/tmp/seed/$PID; OUT=/tmp/seed/out/$PID
 mkdir -p /tmp/mx
-RES=/tmp/mx/matrix-$PID.txt; : > "$RES"
+RES=${MX_RES:-/tmp/mx/matrix-$PID.txt}; : > "$RES"
 for d in "$OUT"/m*/; do
   k=$(basename "$d")
   git -C "$W" checkout -q -- . ; git -C "$W" apply "$d/patch.diff" || { echo "$PID/$k patch-does-not-apply" >> "$RES"; continue; }
